@@ -540,8 +540,10 @@ def process_fn(src_obj, containers, name, opts, subs, log):
     return out, original
 
 
-def process_item(src_obj, kind, name, opts, log):
-    s, e, ob, _ = src_obj.locate([], kind, name)
+def process_item(src_obj, kind, name, opts, log, containers=()):
+    s, e, ob, in_trait_impl = src_obj.locate(list(containers), kind, name)
+    if in_trait_impl:
+        opts = list(opts) + ['nopub']
     text = src_obj.src[s:e]
     original = text
     keep = {'Copy', 'Clone'}
@@ -574,10 +576,11 @@ def generate(template_path, repo):
         if st.startswith('//@ item '):
             parts = [p.strip() for p in st[len('//@ item '):].split('|')]
             rel = parts[0]
-            kind, name = parts[1].split()
-            opts = parts[2:]
+            opts = [p for p in parts[1:] if p == 'nopub' or re.match(r'^\w+=', p)]
+            rest = [p for p in parts[1:] if p not in opts and p != '']
+            kind, name = rest[-1].split()
             log = []
-            text, orig = process_item(Source.get(repo, rel), kind, name, opts, log)
+            text, orig = process_item(Source.get(repo, rel), kind, name, opts, log, rest[:-1])
             a = len(out) + 1
             out += text.split('\n')
             drops += [f'{rel}:{kind} {name}: {x}' for x in sorted(set(log))]
